@@ -311,7 +311,7 @@ Inductive res :=
 | RBool (b : bool) | RVal (v : val) | RKeys (l : list key) | RProto (p : option nat) | RDesc (p : option prop).
 
 Definition sstep (h : heap) (o : op) : heap * res * list event :=
-  let fuel := S (length h) in
+  let fuel := S (S (length h)) in
   match o with
   | ODefine o k d => (upd_obj h o (define_obj k d), RBool (define_ok k d (hget h o)), [])
   | OSet o k _ v r => let '(h', b, ev) := s_set fuel h o k v r in (h', RBool b, ev)
@@ -712,7 +712,7 @@ Definition i_is_frozen (o : iobj) : bool :=
                      end) (i_all_props o).
 
 Definition istep (h : iheap) (o : op) : iheap * res * list event :=
-  let fuel := S (length h) in
+  let fuel := S (S (length h)) in
   match o with
   | ODefine o k d => (iupd h o (i_define_obj k d), RBool (i_define_ok k d (ihget h o)), [])
   | OSet o k num v r => let '(h', b, ev) := i_set h o k num v r in (h', RBool b, ev)
